@@ -34,31 +34,31 @@ prop('C02', level='proof', modules=['Polyseed.Props.C02', 'Polyseed.Props.C02Phr
      technique='Lean 4 proof (linear algebra over GF(2048), decide +kernel over the field) + exhaustive correspondence on mul2',
      assumptions=['coefficients are < 2048 (word indices, coin < 2048)'])
 prop('C04', level='proof', modules=['Polyseed.Props.C04'], suites=[],
-     api=dict(cone=['keygen', 'create', 'load', 'decode', 'decodex', 'decoden', 'crypt', 'dump', 'store']),
+     api=dict(cone={'keygen': 'full'}),
      text='Theorems keygen_events (exactly one KDF call; password = 32-byte secret buffer; salt bytes spelled out; 10000 iterations; key length passed through), keygen_password (zero padding for canonical seeds), kdfArgs_inj (different secret/coin/birthday/features give different inputs), kdfArgs_path_independent. S-api records all seven KDF arguments of every call on the real code, compares the key buffer with what the stub wrote and the seed before/after, and compares KDF inputs of seeds reached by different paths (create, decode in any language, load, crypt twice).',
      note=PROOF_NOTE + 'Modelled, not verified: polyseed_keygen. That the library does not READ the key afterwards is invisible to a pattern comparison; only writes are observed.',
      technique='Lean 4 proof (event theorem + injectivity of the salt layout) + API-history correspondence with recorded KDF arguments',
      assumptions=['coin < 2048; canonical seeds (proved invariant, C13)'])
 prop('C05', level='proof', modules=['Polyseed.Props.C05'], suites=['gf'],
-     api=dict(cone=['encode', 'decode', 'decodex', 'decoden', 'create', 'dump'], weights=dict(errors=6, roundtrip=2)),
+     api=dict(cone={'encode': 'result', 'decode': 'status', 'decodex': 'status', 'decoden': 'status'}, weights=dict(errors=6, roundtrip=2)),
      text='Theorems wrong_coin (a valid polynomial encoded for coin a fails the checksum for every b != a; corollary of C02.single_error), same_coin, coin_changes_word2_only, for all polynomials and all 2048x2047 ordered pairs. S-api decodes phrases for wrong coins on the real code (biased to coins 0/2047 and XOR-neighbours).',
      note=PROOF_NOTE + 'Stated on coefficient vectors; the lifting to phrases uses the word-lookup theorems (C07/C08).',
      technique='Lean 4 proof (corollary of the GF(2048) single-error theorem) + API-history correspondence',
      assumptions=['coins are < 2048 (the API asserts it; larger values are outside the model)'])
 prop('C12', level='proof', modules=['Polyseed.Props.C12'], suites=[],
-     api=dict(cone=['crypt', 'dump', 'store', 'load', 'encode', 'decode', 'decodex', 'decoden'], weights=dict(crypt=8, storage=1, roundtrip=1)),
+     api=dict(cone={'crypt': 'full'}, weights=dict(crypt=8, storage=1, roundtrip=1)),
      text='Theorems crypt_involutive (twice with the same mask restores a canonical seed bit for bit, every mask), crypt_canon (result canonical for every mask: 150 bits, zero padding, check value recomputed), crypt_toggles, cryptSecret_getD (mask = first 19 KDF bytes, top two bits of the 19th dropped), crypt_events (one KDF call with NFKD(password), salt bytes spelled out, 10000 iterations, 32 bytes; three wipes), crypt_norm_equiv. S-api applies passwords (ASCII, composed/decomposed, empty, 358-400 bytes, invalid UTF-8) with pseudo-random masks and checks every clause on the real code.',
      note=PROOF_NOTE + 'Modelled, not verified: polyseed_crypt, utf8_nfkd_lazy. Assumes the injected NFKD returns a NUL-terminated string shorter than POLYSEED_STR_SIZE and its length.',
      technique='Lean 4 proof (byte-wise XOR algebra, all masks) + API-history correspondence with recorded KDF calls',
      assumptions=['the injected KDF is a deterministic function of its inputs'])
 prop('C18', level='proof', modules=['Polyseed.Props.C18'], suites=[],
-     api=dict(cone=['inject', 'create', 'free', 'encode', 'crypt', 'keygen', 'decode', 'decodex', 'decoden', 'load'], weights=dict(inject=6, roundtrip=2, crypt=1, faults=1)), extra='extra_syms_undef',
+     api=dict(cone={'inject': 'full', 'create': 'full', '*': 'ids'}, weights=dict(inject=6, roundtrip=2, crypt=1, faults=1)), extra='extra_syms_undef',
      text='Theorems inject_replaces / inject_last_wins / inject_optional (libc time, malloc, free exactly when the entry is NULL) / inject_frame, create_events (alloc, clock, 19 random bytes, wipe - in this order, nothing else), create_secret (secret = the 19 bytes with the top two bits of the last dropped; injective on the 150 bits), create_junk_independent. S-api injects two distinguishable stub sets with each optional entry present/NULL (libc interposed with --wrap), overwrites and unmaps the caller struct after injection, and checks which function served every dependency call.',
      note=PROOF_NOTE + 'Modelled, not verified: dependency.c, polyseed_create. "No other source of randomness or time" is additionally checked by the undefined-symbol inventory of the objects (S-syms).',
      technique='Lean 4 proof (event theorems over all random/clock outputs) + API-history correspondence with function identities',
      assumptions=[])
 prop('C03', level='proof', modules=['Polyseed.Props.C03'], suites=['pack'],
-     api=dict(cone=['encode', 'create', 'dump', 'load'], weights=dict(roundtrip=6, errors=1, storage=1)),
+     api=dict(cone={'encode': 'full'}, weights=dict(roundtrip=6, errors=1, storage=1)),
      text='Theorems dataToPoly_eq_spec (the chunk loops of polyseed_data_to_poly compute exactly the README layout: base-1024 digits of the 150-bit secret, one feature/birthday bit each, for EVERY well-formed seed - loops unrolled symbolically, 15 equations by omega), checkValue_eq_spec (word 1 = check value over GF(2)[x]/(x^11+x^2+1) as defined in the spec), encodeCoeffs_eq_spec (coin XORed into word 2), encodeTmp_eq_spec / encode_eq_spec (joined by the separator, NFC by the injected function iff the language composes), encode_pure, flags_as_published (kernel-evaluated on the regenerated registry), the published English vector. Correspondence: 165 single-bit seeds, pairs, random seeds through data_to_poly/poly_to_data; encode on the real code compared with an independent Python rendering of the format.',
      note=PROOF_NOTE + 'Modelled, not verified: gf.c, polyseed_encode. Spec (Model/Spec.lean) is written from README.md; "an independent implementation" is represented by Spec plus vlib/spec.py.',
      technique='Lean 4 proof (symbolic unrolling of the packing loops + omega; spec written from the README) + correspondence on packing and encode',
@@ -70,24 +70,24 @@ prop('C13', level='proof', modules=['Polyseed.Props.C13'], suites=[],
      technique='Lean 4 proof (invariant by induction over histories + canonical-representation refinement + frame) + API-history correspondence',
      assumptions=['oracles return bytes (OraclesOK); coin < 2048; load buffers are 32 bytes; handles passed are live'])
 prop('C15', level='proof', modules=['Polyseed.Props.C15'], suites=[],
-     api=dict(cone=None, weights=dict(faults=6, unsupported=3, storage=2, roundtrip=2, badtokens=1, garbage=1), sessions=5), extra='extra_faults',
+     api=dict(cone={'*': 'ev:alloc,free+status'}, weights=dict(faults=6, unsupported=3, storage=2, roundtrip=2, badtokens=1, garbage=1), sessions=5), extra='extra_faults',
      text='Theorems step_ledger / run_ledger / run_ledger_init (for EVERY history, oracle and schedule of allocation failures the ledger computed from the event trace is defined - no double free, no foreign free, no live block handed out twice - and equals the set of seeds the library holds: nothing leaks), failed_call_balanced (a failing call returns every block it took), alloc_failure_create/load/decode (memory status, no seed, no further block access), free_events (freeing NULL does nothing; a seed is wiped through the injected wipe then freed exactly once), junk independence. Fault enumeration on the real code: a history reaching every outcome class is run for every subset of failing allocation requests, diffed against the model, with the harness allocator checking the ledger itself (guard pages, unmapped-on-free, zeroed-at-free).',
      note=PROOF_NOTE + 'Malloc contract (a block handed out is not live; ids unique) is the hypothesis Inv.',
      technique='Lean 4 proof (ledger invariant by induction over histories, all fault schedules) + exhaustive fault enumeration over a fixed history',
      assumptions=['malloc contract; handles passed to the library are live'])
 prop('C14', level='other', modules=['Polyseed.Props.C14'], suites=[],
-     api=dict(cone=None, weights=dict(garbage=8, badtokens=3, faults=2, unsupported=1, roundtrip=1), sessions=4), extra='extra_malformed',
+     api=dict(cone={'*': 'status'}, weights=dict(garbage=8, badtokens=3, faults=2, unsupported=1, roundtrip=1), sessions=4), extra='extra_malformed',
      text='Theorems strSplit_bounds (never more than 16 tokens stored, never more than 17 returned), lazyNfkd_length, load/create/decode/decodeExplicit status-range theorems (only documented statuses, every input), failed_call_no_seed (any call, input, oracle and allocation outcome), termination of every model function (accepted by Lean as total definitions). Runtime: the malformed stream (raw bytes, invalid UTF-8, strings around POLYSEED_STR_SIZE and up to 40000 bytes, separator floods, mutated phrases, random/mutated 32-byte buffers) through both decoders, crypt and load with every input flush against a PROT_NONE page, output buffers likewise, ASan+UBSan, inputs compared before/after.', note=PROOF_NOTE, technique='Lean 4 theorems on the model (totality, status ranges, capacity bounds) + sanitizer/guard-page observation', assumptions=[],
      explanation='model: every function is total by construction (structural or fuel-bounded recursion), returns only documented statuses, keeps within its buffer capacities and hands out no seed on failure (theorems, all inputs); code: every input string and buffer is placed flush against a PROT_NONE page, output buffers likewise, the library runs under ASan+UBSan, inputs are compared before/after, the harness allocator checks the ledger; what is NOT shown: the memory accesses of the compiled code on inputs outside the explored ones')
 prop('C20', level='other', modules=['Polyseed.Props.C20'], suites=[], extra='extra_threads',
      text='Theorems globals_unchanged (every call other than inject/enable_features leaves the dependency table and the feature mask alone), other_thread_frame = C13.frame (a call never changes a seed other than its argument or the fresh block it obtains), on top of C15 (block identities never collide). Runtime: writable-symbol inventory of the objects built from the tree (complete: exactly the dependency table, the feature mask, the GF table and the registry array) and N threads x iterations under ThreadSanitizer with per-thread digests of every observable result compared with the serial run, yields injected through the dependency stubs.', note=PROOF_NOTE, technique='Lean 4 interleaving theorem on the model + ThreadSanitizer + writable-symbol inventory', assumptions=[],
      explanation='model: calls of different threads on disjoint seeds commute (each reads only the injected-dependency table, the feature mask and its own seeds); code: the writable-symbol inventory of the objects built from the tree is exactly {polyseed_deps, reserved_features, polyseed_mul2_table} (complete), and N threads run under ThreadSanitizer with per-thread results compared with the serial run (schedules sampled)')
 prop('C16', level='other', modules=['Polyseed.Props.C16'], suites=[],
-     api=dict(cone=None, weights=dict(roundtrip=3, crypt=3, faults=2, unsupported=2, storage=2, badtokens=1), sessions=3), extra='extra_stack',
+     api=dict(cone={'*': 'ev:zero,free'}, weights=dict(roundtrip=3, crypt=3, faults=2, unsupported=2, storage=2, badtokens=1), sessions=3), extra='extra_stack',
      text='Theorems free_wipes_first / freeEvents_wipe (a seed block - freed by the caller or by the library on its error paths - is wiped through the injected wipe over its whole size immediately before the injected free), decodeExplicit_wipes, decode_wipes (phrase copy, token pointers, polynomial on EVERY exit path; the detection loop index array whenever the loop ran), create_wipes, encode_wipes, crypt_wipes (polynomial, mask, normalised password), load_wipes. Runtime: memzero events of every op compared with the model (S-api), and the stack scan: 19 function/exit-path cases on a dedicated pre-patterned stack, scanned for secret bytes, indices (16/32/64-bit), phrase, password, mask, against a control run; gcc -O0/-O2 (thorough: + -O1/-O3 and clang -O0/-O2/-O3).', note=PROOF_NOTE, technique='Lean 4 theorem on the model wipe discipline + stack scan', assumptions=[],
      explanation='model: every temporary that receives secret-derived data is the target of an injected wipe of its full size on every exit path, and a freed seed block is wiped first (theorems over all inputs); code: memzero events of every op compared with the model, plus a scan of the dead stack after every API function x exit path x compiler setting')
 prop('C17', level='proof', modules=['Polyseed.Props.C17'], suites=[],
-     api=dict(cone=['encode'], weights=dict(roundtrip=6, variants=1), sessions=3), extra='extra_c17',
+     api=dict(cone={'encode': 'full'}, weights=dict(roundtrip=6, variants=1), sessions=3), extra='extra_c17',
      text='Theorems maxPhrase_lt_all (for every registered language 16*longest word + 15*separator < POLYSEED_STR_SIZE: kernel-evaluated on the tables and the constant of the CURRENT tree), encodeTmp_length_le (every phrase, all seeds and coins, is at most that long), encode_no_overflow (the str_tmp overflow outcome of the model is unreachable), encode_output_fits (returned size = length of the output < buffer size), lazyNfkd_no_truncation. The extremal witness seed of every language is encoded on the real code under ASan with the caller buffer against a guard page, and decoded back.',
      note=PROOF_NOTE + 'The composed-form bound assumes the injected NFC does not lengthen a phrase (hypothesis hnfc; observed on every encode of the run).',
      technique='Lean 4 proof (kernel-evaluated per-position maxima of the regenerated tables) + extremal witness seeds on the real code',
@@ -104,7 +104,7 @@ prop('C07', level='proof', modules=['Polyseed.Props.C07'], suites=['find'], extr
      technique='Lean 4 proof by kernel evaluation over the regenerated tables (certificate checkers proved sound) + exhaustive normaliser execution',
      assumptions=['plain char signed (model parameter sgn = true); see C19'])
 prop('C08', level='proof', modules=['Polyseed.Props.C08'], suites=['find'],
-     api=dict(cone=['decode', 'decodex', 'decoden'], weights=dict(variants=8, badtokens=4, roundtrip=1)),
+     api=dict(cone={'decode': 'status', 'decodex': 'status', 'decoden': 'status'}, weights=dict(variants=8, badtokens=4, roundtrip=1)),
      text='Theorem find_iff_rule: in ALL ten languages, for EVERY token (NUL-free byte string) and every index, the lookup returns that index if and only if Rule accepts the token for that word, where Rule (written without the code) is: exact word; or, in the six abbreviating languages, a prefix of at least four letters; compared on the accent-stripped forms in Spanish and French. Built from: comparer_zero_iff (zero sets of the four comparators; compare_*_noaccent = compare_* on stripped strings, an identity), findWord_sound (bsearch / linear search return only indices that compare equal), and the per-table bsearch decision-tree certificate extended to EVERY admissible abbreviation of every word (kernel-evaluated, ~1.5 min per list in parallel). Corollaries find_only_by_rule, find_exact_iff, too_short, continues_otherwise. S-find replays every prefix length x accent subset x continuation per word on the real code against the model and an independent Python rendering of the rule; S-api does it through the API with real NFKD. Open finding D6: strip removes every byte >= 0x80, not only combining accents - stated in the theorem as it is, listed as KNOWN-FINDING.',
      note=PROOF_NOTE + 'strip = removal of all bytes >= 0x80; it coincides with "accents dropped" on NFKD Latin text only (D6).',
      technique='Lean 4 proof (comparator zero sets + search soundness + kernel-evaluated decision-tree certificate over all admissible abbreviations) + exhaustive per-word correspondence',
@@ -113,7 +113,7 @@ prop('C19', level='other', modules=['Polyseed.Props.C19'], suites=[], extra='ext
      text='Theorems rank_is_signed_order / sgnCmp_is_signed / isNeg_is_signed / isNeg_is_unsigned / rank_facts: after the repair of D2 the model has NO signedness parameter (every comparison goes through the unsigned byte value, as compare_char and IS_NON_ASCII do in the code) and the explicit order is exactly the signed-char order the shipped sorted lists were built for. Runtime (S-sign): the same unit and API scripts (all languages; composed, decomposed, abbreviated, unaccented phrases; non-ASCII passwords) on a -fsigned-char and a -funsigned-char build, each compared with the one model and with each other - a difference is reported with the failing input.', note=PROOF_NOTE, technique='Lean 4 theorem about the model parameter + two builds', assumptions=[],
      explanation='two char-signedness builds of the tree run the same scripts; their transcripts are compared with each other and with the model')
 prop('C09', level='proof', modules=['Polyseed.Props.C09'], suites=['detect'],
-     api=dict(cone=['decode', 'decodex', 'decoden'], weights=dict(badtokens=5, mixed=4, variants=3, faults=2, garbage=2, roundtrip=1)),
+     api=dict(cone={'decode': 'result', 'decodex': 'result', 'decoden': 'result'}, weights=dict(badtokens=5, mixed=4, variants=3, faults=2, garbage=2, roundtrip=1)),
      text='Theorems phraseDecode_cases (auto-detection = case split on the languages that recognise ALL tokens: none/one/several -> language error/OK with that language/multiple languages, regardless of checksums), decode_eq_explicit (on success: exactly the outcome, state and events of explicit decoding with that language), decode_status and decodeExplicit_status (precedence: word count, language, checksum, memory, unsupported), splitN_inv / strSplit_16 (16 is returned only for exactly 16 space-free tokens joined by single spaces plus at most one trailing space). All generic in the language list. Correspondence: phrase_decode on token lists with common words, foreign/empty/garbage tokens; API decodes with doubled/leading/trailing/ideographic separators, 15/17 tokens, failing allocators.',
      note=PROOF_NOTE + 'For non-ASCII input the tokenised string is what the injected NFKD returns (may truncate to the buffer size): the dependency contract.',
      technique='Lean 4 proof (generic case analysis of the detection loop and tokeniser inversion) + correspondence on phrase_decode and API decodes',
@@ -133,6 +133,52 @@ prop('C11', level='proof', modules=['Polyseed.Props.C11'], suites=['bday'],
      note=PROOF_NOTE + 'Modelled, not verified: birthday.h and the clock call in polyseed_create.',
      technique='Lean 4 proof (omega over all 64-bit clock values) + boundary-exhaustive correspondence',
      assumptions=['the clock value is a uint64_t (t < 2^64)'])
+
+
+import re as _re
+
+
+def project(block, aspect):
+    """what of an op block (list of transcript lines) concerns a property: 'full', 'status', or 'ev:<kinds>' (dependency-call
+    records of these kinds, in order; for `zero` only the target and length), optionally '+status' / '+ids' (function identities only)"""
+    if aspect == 'full':
+        return tuple(block)
+    out = [block[0]]
+    for a in aspect.split('+'):
+        if a == 'status':
+            for l in block:
+                if l.startswith('< '):
+                    m = _re.search(r'st=(\d+)', l)
+                    out.append(m.group(0) if m else l if ('seed=' not in l and 'key=' not in l and 'buf=' not in l and 'str=' not in l) else '')
+                    m = _re.search(r'seed=(\S+)', l)
+                    out.append('seed' if (m and m.group(1) != '-') else 'noseed')
+        elif a.startswith('ev:'):
+            kinds = a[3:].split(',')
+            for l in block:
+                if l.startswith('E ') and l.split()[1] in kinds:
+                    out.append(l)
+        elif a == 'ids':
+            for l in block:
+                if l.startswith('E '):
+                    p = l.split()
+                    out.append(p[1] + ' ' + p[2])
+        elif a == 'result':
+            out += [l for l in block if l.startswith('< ')]
+    return tuple(out)
+
+
+def cone_differs(cone, cb, mb):
+    """does the disagreement between code block cb and model block mb concern the property whose cone is given?
+    cone: None (everything), list of op names (whole block), or dict op name -> aspect"""
+    opname = cb[0].split()[1] if len(cb[0].split()) > 1 else '?'
+    if cone is None:
+        return True
+    if isinstance(cone, (list, tuple, set)):
+        return opname in cone
+    asp = cone.get(opname, cone.get('*'))
+    if asp is None:
+        return False
+    return project(cb, asp) != project(mb, asp)
 
 
 class Violation:
@@ -235,7 +281,7 @@ def run_api(ctx, pid, viol, stats, weights=None, sessions=None, nops=None, varia
                     viol.append(Violation('oracle', key, msg, script=script[-700:], suite=tag, variant=variant, found_input=True))
             for (i, cb, mb) in session.diff_with_model(sess)[:5]:
                 opname = cb[0].split()[1] if len(cb[0].split()) > 1 else '?'
-                if cone is not None and opname not in cone:
+                if not cone_differs(cone, cb, mb):
                     continue
                 st['mismatches'] += 1
                 viol.append(Violation('correspondence', 'corr:%s:%s' % (tag, opname),
@@ -512,7 +558,7 @@ def extra_faults(ctx, pid, viol, stats):
             if failing and op.kv('st') != '6':
                 viol.append(Violation('oracle', 'alloc-fail-status', 'allocation failed during "%s" but the call returned status %s, not the memory status' % (op.head[:80], op.kv('st')),
                                       script=script, suite='faults', variant='asan', found_input=True))
-        for (i, cb, mb) in res.mismatches[:2]:
+        for (i, cb, mb) in [m for m in res.mismatches if cone_differs({'*': 'ev:alloc,free+status'}, m[1], m[2])][:2]:
             st['mismatches'] += 1
             viol.append(Violation('correspondence', 'corr:faults', 'failing allocations %s: code and model disagree at op %d' % (bin(mask), i), script=script, expected=mb, observed=cb, suite='faults', variant='asan'))
         if mask == 5:
@@ -724,7 +770,7 @@ def extra_malformed(ctx, pid, viol, stats):
         viol.append(Violation('crash', 'crash:malformed', 'the real code crashed / was stopped by a sanitizer or guard page: %s' % res.crash[:1500], script=context_script(script, res, len(res.c_ops) - 1) if res.c_ops else script[:5], suite='malformed', variant='asan', found_input=True))
     for (i, head, text) in res.complaints:
         viol.append(Violation('oracle', 'harness:' + text.split()[1], 'harness observed at "%s": %s' % (head[:100], text), script=[suites.INJECT, head], suite='malformed', variant='asan', found_input=True))
-    for (i, cb, mb) in res.mismatches[:3]:
+    for (i, cb, mb) in [m for m in res.mismatches if cone_differs({'*': 'status'}, m[1], m[2])][:3]:
         st['mismatches'] += 1
         viol.append(Violation('correspondence', 'corr:malformed', 'malformed input: code and model disagree at op %d (%s)' % (i, cb[0][:80]), script=context_script(script, res, i), expected=mb, observed=cb, suite='malformed', variant='asan'))
     end = [h for h in res.header if h.startswith('# end')]
